@@ -69,7 +69,7 @@ class SplittingSimulation(BaseSimulation):
                 'name': self.decoders[0].id,
                 'parameters': self.decoders[0].params,
             },
-            'error_rates': self.error_rates,
+            'error_rates': self.error_rates.tolist(),
             'method': {
                 'name': 'splitting',
                 'parameters': {
@@ -78,6 +78,14 @@ class SplittingSimulation(BaseSimulation):
                 }
             }
         }
+
+    def load_results_from_dict(self, data):
+        super().load_results_from_dict(data)
+
+        # The chains keep growing: keep them as lists that can be appended to.
+        self._results['log_p_errors'] = [
+            list(log_p) for log_p in self._results['log_p_errors']
+        ]
 
     def _run(self, n_runs: int):
         """Run assuming perfect measurement."""
